@@ -54,7 +54,7 @@ Qed.
 (* ---- the cleanup keeps the invariant and moves the limits; rCURRENT is not touched ---- *)
 Lemma cleanup_sk c crit k e lo0 hi w wr keys closed ts lo mid :
   tskcfg c crit k -> sfx_ok (c_spec c) -> years_ok e lo0 hi -> (wnow w <= hi)%Z -> TsKInv c e lo0 w wr keys closed ts lo mid ->
-  exists w', cleanup_impl c w k (IFTs std_fmt) false = (Ok tt, w') /\ same_env w w'
+  exists w', cleanup_impl c w k (IFTs std_fmt) None = (Ok tt, w') /\ same_env w w'
     /\ TsKInv c e lo0 w' wr keys closed ts (knew_lo k lo (length closed)) (knew_mid k mid (length closed))
     /\ cur_view w' wr = cur_view w wr.
 Proof.
@@ -429,8 +429,8 @@ Proof.
     - unfold wr_ok, wr. cbn. destruct (c_cap c); [lia | reflexivity].
     - reflexivity. }
   (* the initial cleanup *)
-  assert (Ecl : match k with KNever => (Ok tt, w2) | _ => cleanup_impl c w2 k (ns_filter (NSTs (wnow w) (Some cur_infix) std_fmt)) (naming_writes_direct NTimestamps) end
-                = cleanup_impl c w2 k (IFTs std_fmt) false) by (destruct k; reflexivity).
+  assert (Ecl : forall d, match k with KNever => (Ok tt, w2) | _ => cleanup_impl c w2 k (ns_filter (NSTs (wnow w) (Some cur_infix) std_fmt)) (if naming_writes_direct NTimestamps then Some d else None) end
+                = cleanup_impl c w2 k (IFTs std_fmt) None) by (intros d; destruct k; reflexivity).
   rewrite Ecl. clear Ecl.
   assert (Hhi2 : (wnow w2 <= hi)%Z) by (rewrite (same_env_now _ _ S2); exact Hhi).
   destruct (cleanup_sk c crit k e lo0 hi w2 wr [] [] (wnow w) 0 0 Hcfg Hsfx Y Hhi2 I2) as (w4 & E4 & S4 & I4 & V4). rewrite E4. cbn [bind].
